@@ -6,6 +6,7 @@ import (
 	"encoding/json"
 	"encoding/xml"
 	"fmt"
+	"strings"
 	"sync"
 	"sync/atomic"
 	"time"
@@ -56,6 +57,10 @@ type c13Case struct {
 	MaxLen int    `json:"maxlen"`
 	AllCancel bool `json:"allcancel"` // enumerate every cancellation point (else one PRNG point per history)
 	Seed   uint64 `json:"seed"`
+	// host level: definition text ("duration:PT0.04S", "cycle:R3/PT0.03S") and after how many firings the
+	// context is cancelled (-1 = never, 0 = before the first)
+	HostDef    string `json:"host_def,omitempty"`
+	HostCancel int    `json:"host_cancel,omitempty"`
 }
 
 const c13Interval = time.Minute
@@ -108,6 +113,14 @@ func c13Cases(tier string, seed uint64) []fw.Case {
 			c := c13Case{Level: "process", Def: d, Prefix: []int{a}, MaxLen: 3, Seed: seed}
 			c.Name = fmt.Sprintf("process/%s/%s", d, mvNames[a])
 			cs = append(cs, fw.MkCase("process", &c))
+		}
+	}
+	// host clock (real time): safety rules only - never early, never more than n, none after cancellation
+	for i, txt := range []string{"duration:PT1S", "cycle:R2/PT1S"} {
+		for _, cancelAfter := range []int{-1, 0, 1} {
+			c := c13Case{Level: "host", HostDef: txt, HostCancel: cancelAfter, Seed: seed}
+			c.Name = fmt.Sprintf("host/%d/%s/cancel%d", i, txt, cancelAfter)
+			cs = append(cs, fw.MkCase("host", &c))
 		}
 	}
 	// two instances of one definitions model on one event bus and one clock, created at different times
@@ -688,6 +701,99 @@ func c13PairHistory(c *c13Case, kind, val string, hist []int, env *fw.Env, v *fw
 	return true
 }
 
+// c13Host: timer.New over the real host clock with intervals of one second (the smallest the duration syntax allows). Only what a loaded machine
+// cannot falsify is decided: a firing received before its due time is early; more than n firings is too
+// often; a firing received later than 150 ms after cancel() returned (several intervals) fired after
+// cancellation. Fewer firings than expected within the generous wait is inconclusive, never a verdict.
+func c13Host(c *c13Case, v *fw.V) {
+	kind, val, _ := strings.Cut(c.HostDef, ":")
+	def := schema.DefaultTimerEventDefinition()
+	ex := schema.AnExpression{}
+	if err := xml.NewDecoder(bytes.NewBufferString(fmt.Sprintf(`<bpmn:expression>%s</bpmn:expression>`, val))).Decode(&ex); err != nil {
+		v.Inconclusive("parse", "%v", err)
+		return
+	}
+	n := 1
+	var interval time.Duration
+	switch kind {
+	case "duration":
+		def.SetTimeDuration(&ex)
+		fmt.Sscanf(val, "PT%fS", new(float64))
+	default:
+		def.SetTimeCycle(&ex)
+		fmt.Sscanf(val, "R%d/", &n)
+	}
+	var secs float64
+	if i := strings.LastIndex(val, "PT"); i >= 0 {
+		fmt.Sscanf(val[i:], "PT%fS", &secs)
+	}
+	interval = time.Duration(secs * float64(time.Second))
+	if interval <= 0 {
+		v.Inconclusive("parse", "no interval in %q", val)
+		return
+	}
+	ctx, cancel := context.WithCancel(context.Background())
+	defer cancel()
+	hc, err := clock.Host(ctx)
+	if err != nil {
+		v.Inconclusive("host-clock", "%v", err)
+		return
+	}
+	created := time.Now()
+	ch, err := timer.New(ctx, hc, def)
+	if err != nil {
+		v.Inconclusive("timer-new", "timer.New(%s): %v", c.HostDef, err)
+		return
+	}
+	cls := "host-" + kind
+	var cancelledAt time.Time
+	if c.HostCancel == 0 {
+		cancel()
+		cancelledAt = time.Now()
+	}
+	fired := 0
+	deadline := time.After(time.Duration(n)*interval + 1500*time.Millisecond)
+loop:
+	for {
+		select {
+		case _, ok := <-ch:
+			if !ok {
+				break loop
+			}
+			now := time.Now()
+			fired++
+			due := created.Add(time.Duration(fired) * interval)
+			if now.Before(due) {
+				v.Violate("fired-early", cls, "%s on the host clock: firing %d received %v after creation, due after %v", c.HostDef, fired, now.Sub(created), due.Sub(created))
+				return
+			}
+			if fired > n {
+				v.Violate("fired-too-often", cls, "%s on the host clock fired %d times", c.HostDef, fired)
+				return
+			}
+			if !cancelledAt.IsZero() && now.Sub(cancelledAt) > 150*time.Millisecond {
+				v.Violate("fired-after-cancel", cls, "%s on the host clock: a firing was received %v after cancel() had returned", c.HostDef, now.Sub(cancelledAt))
+				return
+			}
+			if c.HostCancel == fired {
+				cancel()
+				cancelledAt = time.Now()
+			}
+		case <-deadline:
+			break loop
+		}
+	}
+	v.Add("host-firings", fired)
+	want := n
+	if c.HostCancel >= 0 && c.HostCancel < n {
+		want = c.HostCancel
+	}
+	if fired < want {
+		v.Inconclusive("host-slow", "%s fired %d of %d times within the wait", c.HostDef, fired, want)
+	}
+	v.Add("histories", 1)
+}
+
 func init() {
 	fw.Register(&fw.Prop{
 		ID:    "C13",
@@ -699,7 +805,9 @@ func init() {
 				v.Inconclusive("descriptor", "%v", err)
 				return v
 			}
-			if cc.Level == "timer" {
+			if cc.Level == "host" {
+				c13Host(&cc, v)
+			} else if cc.Level == "timer" {
 				c13Timer(&cc, env, v)
 			} else if cc.Level == "pair" {
 				c13Pair(&cc, env, v)
@@ -709,9 +817,9 @@ func init() {
 			v.Nontrivial = v.Stats["histories"] > 0
 			return v
 		},
-		Rule:        "timer.New driven directly over an instrumented mock clock: definitions {date, duration, cycle R0/R1/R2/R3/unbounded, explicit start, end bound, start/end form} x ALL sequences of up to 4 (quick) / 6 (thorough) clock moves from the grid {due-1ns, exactly due, due+1ns, +half interval, +10 intervals, -1 interval (backwards)} resolved against the reference's next due time x cancellation after each prefix (quick: every point; thorough: one PRNG point per history); quiescence after every move; rules: never early / >= one interval apart (each firing's clock reading >= previous + interval), never more than n, never at/after end, none after cancel, and exact count at every step for monotone histories; process level: start -> timer catch -> task with up to 3 moves; pair level: two instances of one definitions value on one event bus and one clock, the second created 2.5 intervals after the first, up to 3 moves from {either instance's due time - 1ns / exactly, +half}: each instance continues for its own timer only; a case = one shard of the enumeration; 'measured.histories' = histories executed",
+		Rule:        "timer.New driven directly over an instrumented mock clock: definitions {date, duration, cycle R0/R1/R2/R3/unbounded, explicit start, end bound, start/end form} x ALL sequences of up to 4 (quick) / 6 (thorough) clock moves from the grid {due-1ns, exactly due, due+1ns, +half interval, +10 intervals, -1 interval (backwards)} resolved against the reference's next due time x cancellation after each prefix (quick: every point; thorough: one PRNG point per history); quiescence after every move; rules: never early / >= one interval apart (each firing's clock reading >= previous + interval), never more than n, never at/after end, none after cancel, and exact count at every step for monotone histories; host level: a duration and a cycle definition with one-second intervals on the real host clock (safety rules only); process level: start -> timer catch -> task with up to 3 moves; pair level: two instances of one definitions value on one event bus and one clock, the second created 2.5 intervals after the first, up to 3 moves from {either instance's due time - 1ns / exactly, +half}: each instance continues for its own timer only; a case = one shard of the enumeration; 'measured.histories' = histories executed",
 		Exhaustive:  func(string) bool { return true },
-		Assumptions: []string{"only mock-clock histories; the host clock (real time, timerfd) is out of reach of a deterministic oracle and is not claimed"},
+		Assumptions: []string{"the deciding histories use the mock clock; on the host clock (real time) only the safety rules a loaded machine cannot falsify are applied (never early, never more than n, none later than 150 ms after cancellation); fewer firings than expected is inconclusive"},
 		Batch:       3,
 		WatchdogSec: 600,
 	})
